@@ -276,6 +276,27 @@ pub(crate) fn shr_split01<T: PrimInt>(n: Cow<'_, BigUint>, shift: T) -> BigUint 
         biguint_shr2(Cow::Borrowed(b), 1, sh)
     }
 }
+// stand-ins for `BigUint <<= usize` (ShlAssign: mem::replace + by-value shift) used by the from_f64 harnesses: the REAL kernel is entered
+// through Cow::Borrowed with the concrete word count of the query (asserted); the by-value wrapper is decided by c07_*_shl2_owned_*
+macro_rules! fixed_word_shl_assign {
+    ($name:ident, $dg:expr) => {
+        pub(crate) fn $name(x: &mut BigUint, shift: usize) {
+            if x.is_zero() {
+                return;
+            }
+            kani::assert(shift / 64 == $dg, "VERIF harness word count mismatch");
+            let r = {
+                let b: &BigUint = &*x;
+                biguint_shl2(Cow::Borrowed(b), $dg, (shift % 64) as u8)
+            };
+            *x = r;
+        }
+    };
+}
+fixed_word_shl_assign!(shl_assign_fixed_0, 0);
+fixed_word_shl_assign!(shl_assign_fixed_1, 1);
+fixed_word_shl_assign!(shl_assign_fixed_2, 2);
+fixed_word_shl_assign!(shl_assign_fixed_15, 15);
 fixed_word_shift!(shl_fixed_0, shr_fixed_0, 0);
 fixed_word_shift!(shl_fixed_1, shr_fixed_1, 1);
 fixed_word_shift!(shl_fixed_2, shr_fixed_2, 2);
